@@ -11,4 +11,4 @@ Extraction "model.ml" N.of_nat N.to_nat encode62 decode62 encode53 decode53 enc4
   crc32 crc16 td0_pack td0_unpack imd_compress imd_expand dot2mg_bytes
   desequence sequence dos_pack_bin dos_pack_tok dos_unpack_bin dos_unpack_tok
   woz_next_chunk woz_walk imd_parse_track decide
-  asm_as scan_as follow_links asm_int scan_int as_escape int_escape unesc m_enc_line m_dec_line.
+  asm_as scan_as follow_links asm_int scan_int as_escape int_escape unesc m_enc_line m_dec_line fmt_line.
